@@ -8,6 +8,27 @@ MINE = {"raised", "li_choi", "choi_reference", "li_fidelity", "gate_fidelity", "
 INV = ["ChoiPinned", "SymmetricAgree", "FidelityBounds"]
 
 
+def continuous_phase(chk, th):
+    """the property quantifies over ARBITRARY single-qubit unitaries: Haar-random ones outside the ring, judged by the same definitions
+    (Choi matrix |V>><<V| in the convention TLC pins to the experiments on the ring scope; fidelity formula)"""
+    import multiprocessing as mp
+    from ..adapters import tomo as ta
+    jobs = [(1, k, ("li", "gf", "mle")) for k in range(1500 if th else 160)] + [(2, k, ("li", "gf")) for k in range(400 if th else 40)] \
+        + [(2, k, ("mle",)) for k in range(200 if th else 16)]
+    with mp.get_context("fork").Pool(12) as pool:
+        results = pool.map(ta.continuous_case, jobs, chunksize=4)
+    for (nq, k, what), r in zip(jobs, results):
+        chk.count(key="cont%d/%d/%s" % (nq, k, "".join(what)))
+        if k % 97 == 0:
+            chk.sample({"qubits": nq, "process": r.get("desc"), "checked": list(what)})
+        for clause, detail in r["findings"]:
+            if clause in MINE:
+                chk.violation(clause, detail, script={"module": "evaluator (continuous unitaries)", "nq": nq, "case": k, "what": list(what), "V": r.get("V")},
+                              sig={"clause": clause, "scope": "continuous"})
+    chk.traces_validated += len(jobs)
+    chk.add_phase("continuous unitaries (Haar-random, numpy definitions calibrated by the ring scope)", cases=len(jobs))
+
+
 def run(tier):
     chk = Check(PID, tier)
     th = tier == "thorough"
@@ -29,6 +50,7 @@ def run(tier):
     if th:
         tc.replay(chk, PID, res, {"nq": 2, "what": ["mle"], "seed": chk.seed, "two_qubit": "ps"}, 0.08, MINE, "2 qubits MLE")
     tlc.cleanup(PID + "_nq2_g%d" % (2 if th else 1))
+    continuous_phase(chk, th)
     chk.assumptions = ["TLC 1.8 + CommunityModules", "MLE quality (eigenvalue >= -1e-8, trace preservation 5e-3 = the order of the library CPTP projection stopping rule, fidelity >= 0.99) is a numeric threshold judged by the harness",
                        "the pseudo-inverse of linear inversion is never computed in TLC: LI is checked through the defining equations of its result"]
     return chk.finish()
